@@ -18,19 +18,23 @@ ANCHORS = [
     ("pipefunc/map/_load.py", ["load_xarray_dataset", "load_outputs"]),
 ]
 RULE = ("valid map requests of harness/mapgen.py (DAGs of 1..4 structural functions, zip / outer product / ':' "
-        "reductions / internal axes at any position / generators / unmapped functions / tuple outputs, every storage) whose root "
-        "inputs are 1-D or 2-D with distinct values, plus hand-written corner cases; each with load_intermediate on or "
-        "off; both xarray_dataset_from_results and load_xarray_dataset are built from a real run folder; kind 0 compares "
-        "variables, dims, values, coordinates, identical(), and .sel() on every single-source 1-D coordinate value; "
-        "kind 1 is .sel() on zipped coordinates; non-trivial = some coordinate exists; distinct by (specs, shapes, "
-        "load_intermediate, kind)")
+        "reductions / internal axes at any position / mapped functions without any mapped axis / generators / unmapped "
+        "functions / tuple outputs, every storage) whose root inputs are 1-D or 2-D with distinct values; user-level lists "
+        "whose generator MapSpecs are left to pipefunc (auto-generated, functions handed over in a random order); two "
+        "independent sub-pipelines sharing index names; unmapped functions returning ndarrays; hand-written corner cases; "
+        "each with load_intermediate on or off; both xarray_dataset_from_results and load_xarray_dataset are built from a "
+        "real run folder; kind 0 compares variables, dims, values, coordinates, identical(), and .sel() on every "
+        "single-source 1-D coordinate value; kind 1 is .sel() on zipped coordinates; every observation also carries "
+        "[valid, known-finding region] which the model recomputes (valid_req, region_req); non-trivial = some coordinate "
+        "exists; distinct by (specs, shapes, load_intermediate, kind, order)")
 ASSUMPTIONS = [
     "xarray/pandas object construction (xr.DataArray, xr.merge(compat='override'), Dataset.__setitem__, "
     "Dataset.__getitem__ attaching every coordinate whose dims are a subset, pd.MultiIndex.from_arrays becoming an "
     "object array of tuples, .sel() building a PandasIndex on the fly for a 1-D non-index coordinate) is library "
     "behaviour: observed on the real objects, not modelled (the property is partial in that sense)",
     "values of the variables are those of C01's model (Model/MapRun.v, sequential semantics) with structural bodies",
-    "unmapped functions return scalars (as in C01's generator); reprs, dtypes and attrs are never compared",
+    "unmapped functions return scalars or ndarrays (never lists); reprs, dtypes and attrs are never compared",
+    "user-level lists: the auto-generated MapSpecs are those of Model/AutoGen.construct (C01's model of Pipeline.add)",
 ]
 TRUSTED = ["Model/XrLabel.v mirrors trace_dependencies/_trace_dependencies/mapspec_axes/_xarray/_xarray_dataset by hand; "
            "tie = per-run differential execution against real xarray.Dataset objects",
@@ -43,9 +47,10 @@ PLAIN = "C19-unmapped-array-output-not-storable"
 
 # ------------------------------------------------------------------ Coq literal
 def emit_case(c) -> str:
-    return "{| c_funcs := %s; c_inputs := %s; c_internal := %s; c_li := %s; c_kind := %s |}" % (
+    return "{| c_funcs := %s; c_inputs := %s; c_internal := %s; c_li := %s; c_kind := %s; c_order := %s |}" % (
         clist([mapgen.func_lit(f) for f in c["funcs"]]), mapgen._env(c["inputs"]),
-        mapgen.shapes_lit(c.get("internal")), cbool(bool(c["li"])), cnat(int(c["kind"])))
+        mapgen.shapes_lit(c.get("internal")), cbool(bool(c["li"])), cnat(int(c["kind"])),
+        clist([cnat(i) for i in (c.get("order") or [])]))
 
 
 # ------------------------------------------------------------------ observation of a real xarray.Dataset
@@ -96,7 +101,7 @@ def _run_request(c):
     from pipefunc.map import load_xarray_dataset
     from pipefunc.map.xarray import xarray_dataset_from_results
 
-    key = json.dumps({k: c[k] for k in ("funcs", "inputs", "internal", "storage", "li")}, sort_keys=True)
+    key = json.dumps({k: c.get(k) for k in ("funcs", "inputs", "internal", "storage", "li", "order")}, sort_keys=True)
     if key in _cache:
         return _cache[key]
     _cache.clear()
@@ -105,7 +110,10 @@ def _run_request(c):
     sink = io.StringIO()
     with contextlib.redirect_stdout(sink):
         try:
-            p = mapsym.build_pipeline(c, log)
+            if c.get("order"):   # user-level list: Pipeline([...]) in this order generates the missing MapSpecs
+                p = mapsym.build_pipeline(dict(c, funcs=[c["funcs"][i] for i in c["order"]]), log)
+            else:
+                p = mapsym.build_pipeline(c, log)
             with mapsym.TempRun() as d:
                 inputs = mapsym.map_inputs(c)
                 r = p.map(inputs, run_folder=d, internal_shapes=mapsym.internal_arg(c),
@@ -121,7 +129,8 @@ def _run_request(c):
                     vars_, coords, sels = o1
                     if kind == 1:
                         vars_, coords = [], []
-                    out[kind] = ["ok", True, ident, same, vars_, coords, sels]
+                    # [the request is valid, this observation is classified as a known finding]
+                    out[kind] = ["ok", [True, kind == 1 and len(sels) > 0], ident, same, vars_, coords, sels]
         except Exception as e:  # noqa: BLE001
             out = {0: Err(e), 1: Err(e)}
     _cache[key] = out
@@ -216,6 +225,15 @@ def corner_requests():
               "inputs": [_arr("x", [2], "list")]})
     R.append({"funcs": [_fn("f", ["y"], [["x", ["i"]]], ["i"]), dict(_single("g", ["s"], ["y"]), ret=[2, 2])],
               "inputs": [_arr("x", [2], "list")]})
+    # user-level lists: the producer's MapSpec is generated by pipefunc ('... -> a[unnamed_0, j]', '... -> v[n0]')
+    R.append({"funcs": [dict(_single("g", ["a"], []), ret=[2, 3], int=[2, 3]),
+                        _fn("h", ["r"], [["a", [None, "j"]]], ["j"]),
+                        _fn("e", ["w"], [["r", ["j"]], ["x", ["j"]]], ["j"])],
+              "inputs": [_arr("x", [3], "list")], "order": [2, 0, 1]})
+    R.append({"funcs": [dict(_single("g", ["v", "v2"], []), ret=[3], int=[3]),
+                        _fn("h", ["w"], [["v", ["n0"]], ["x", ["i"]]], ["i", "n0"]),
+                        _fn("e", ["p"], [["v2", [None]], ["x", ["i"]]], ["i"])],
+              "inputs": [_arr("x", [2], "list")], "order": [1, 2, 0]})
     for r in R:
         r.setdefault("internal", [])
         r.setdefault("storage", "dict")
@@ -363,11 +381,20 @@ def generate(rng, tier, mult):
         if u < 0.10:
             c = _two_pipelines(rng, storages)
         else:
-            c = mapgen.gen_request(rng, max_rank=rng.choice([2, 3, 3]), storages=storages)
+            c = mapgen.gen_request(rng, max_rank=rng.choice([2, 3, 3]), storages=storages,
+                                   allow_zero_ext=rng.random() < 0.5)
             if not _in_scope(c):
                 continue
             if u < 0.25:
                 c = _plain_arrays(c, rng)
+            elif u < 0.80:
+                # user-level list: the '... -> v[...]' MapSpec of a consumed generator is left to pipefunc
+                a = mapgen.to_user_level(c, rng)
+                if a is not None:
+                    a.pop("kind", None)
+                    if a["order"] == sorted(a["order"]) and rng.random() < 0.5:
+                        rng.shuffle(a["order"])
+                    c = a
         out += _cases_of(c, rng.random() < 0.5)
         k += 1
     return out
@@ -382,7 +409,7 @@ def nontrivial_key(c):
     if not _has_coord(c):
         return None
     return ([mapsym.spec_str(f.get("spec")) for f in c["funcs"]],
-            [v["sh"] if isinstance(v, dict) else 0 for _, v in c["inputs"]], c["li"], c["kind"])
+            [v["sh"] if isinstance(v, dict) else 0 for _, v in c["inputs"]], c["li"], c["kind"], c.get("order") or [])
 
 
 def distribution(c):
@@ -393,6 +420,9 @@ def distribution(c):
             "storage": c.get("storage"), "input_ranks": "".join(map(str, ranks)), "may_zip": _may_zip(c),
             "colon": any(a is None for f in c["funcs"] if f.get("spec") for _, ax in f["spec"]["i"] for a in ax),
             "axis_conflict": _axis_conflict(c), "plain_rank": _plain_rank(c),
+            "autogen": bool(c.get("order")),
+            "zero_mapped_axes": any(f.get("spec") and f["spec"]["i"]
+                                    and not any(a for _, ax in f["spec"]["i"] for a in ax) for f in c["funcs"]),
             "internal_before_mapped": any(
                 f.get("ret") and f.get("spec") and f["spec"]["i"]
                 and f["spec"]["o"][0][1][0] not in {a for _, ax in f["spec"]["i"] for a in ax}
